@@ -7,6 +7,7 @@ try/except, early returns and implicit exceptions need no special plumbing.
 Calls go through (1) library models, (2) the callee's contract, (3) inlining.
 """
 import ast
+import os
 import inspect
 import types
 import z3
@@ -295,6 +296,9 @@ class Exec(object):
         self.force_inline = set()
         self.no_contract = set()
         self.interference = None           # set by the rely/guarantee mode
+        self.fresh_reset = False
+        self.prune = False                 # prune `if` branches that the ground path facts exclude (set by contracts with many forks)
+        self._obl_seen = {}                # (name, goal id, pc ids, ...) of obligations already recorded (terms kept alive by self.obls)
         self._objmemo = {}
         self.path_count = 0
         self.call_stack = []
@@ -308,7 +312,13 @@ class Exec(object):
         """run thunk() once per path; thunk returns normally, raises PyRaise, or PathEnd"""
         self.prefix = []
         n = 0
+        base_fresh = self.n_fresh
         while True:
+            # opt-in (contracts whose setup creates every symbol inside the path, nothing cached across paths): fresh names
+            # restart on every path, so the common prefix of two paths builds identical terms and the obligations it
+            # emits are recognised as duplicates (hash-consed ids) instead of being solved once per path
+            if self.fresh_reset:
+                self.n_fresh = base_fresh
             self.pc = []
             self.trail = []
             self.pos = 0
@@ -358,12 +368,29 @@ class Exec(object):
             raise PathEnd()
 
     def _quick(self, extra, timeout=150):
-        s = z3.Solver()
-        s.set("timeout", timeout)
-        for c in self.pc:
-            s.add(c)
-        s.add(extra)
-        return s.check()
+        # incremental: the path condition only grows along a path, so the solver keeps the prefix it has already seen
+        st = getattr(self, "_qstate", None)
+        pc = self.pc
+        if st is not None:
+            s, ids = st
+            if len(ids) > len(pc) or any(not pc[i].eq(ids[i]) for i in range(len(ids))):     # `ids` keeps the formulas alive
+                st = None
+        if st is None:
+            s = z3.Solver()
+            s.set("timeout", timeout)
+            ids = []
+            self._qstate = (s, ids)
+        for i in range(len(ids), len(pc)):
+            c = pc[i]
+            if not _has_quantifier(c):          # ground facts only: fewer facts can only mean less pruning
+                s.add(c)
+            ids.append(c)
+        s.push()
+        try:
+            s.add(extra)
+            return s.check()
+        finally:
+            s.pop()
 
     def entails(self, cond):
         """cheap, sound entailment test from the ground facts of the path (no axioms)"""
@@ -459,9 +486,15 @@ class Exec(object):
         if isinstance(goal, SVal) and not isinstance(goal, SBool):
             raise EngineLimit("obligation %s is not boolean" % name)
         g = z3.BoolVal(False) if goal is False else goal.t
+        extra = tuple(getattr(self, "extra_axioms", ()))
+        key = (name, g.get_id(), tuple(f.get_id() for f in self.pc), tuple(sorted(self.theories)), tuple(f.get_id() for f in extra))
+        if key in self._obl_seen:
+            self.stats["duplicate_obligations"] = self.stats.get("duplicate_obligations", 0) + 1
+            return
+        self._obl_seen[key] = True
         o = Obligation(name, kind, list(self.pc), g, self.path_id(), line, note, self.cur_func)
         o.theories = tuple(sorted(self.theories))
-        o.extra = tuple(getattr(self, "extra_axioms", ()))
+        o.extra = extra
         self.obls.append(o)
 
     def oblige_decided(self, name, ok, backend, note="", line=None, kind="decided"):
@@ -540,7 +573,7 @@ class Exec(object):
 
     def is_true(self, v, pruned=False):
         t = self.truth(v)
-        return self.branch_pruned(t) if pruned else self.branch(t)
+        return self.branch_pruned(t) if (pruned or self.prune) else self.branch(t)
 
     def raise_(self, cls, line=None, args=()):
         if self.line_stack:
@@ -653,7 +686,9 @@ class Exec(object):
         if isinstance(v, SIntList):
             n = SInt(sym.LLEN(v.t))
             j = self.norm_index(i, n, line)
-            return SInt(sym.LAT(v.t, T(j)))
+            if v.width == 1:
+                return SInt(sym.LAT(v.t, T(j)))
+            return tuple(SInt(sym.LAT(t, T(j))) for t in v.ts)
         if isinstance(v, str):
             return v[i]
         raise EngineLimit("index into %s" % type(v).__name__)
@@ -777,6 +812,13 @@ class Exec(object):
                 return SText("opaque")
             if isinstance(a, list) and isinstance(b, list):
                 return a + b
+            if isinstance(a, ZeroList) and isinstance(b, (SIntList, list)):
+                if isinstance(b, SIntList) and b.width != 1:
+                    raise EngineLimit("padding a list of tuples")
+                # named: the term contains an if-then-else, which may not occur inside quantifier patterns
+                r = self.fresh_list("padded", 1)
+                self.pc.append(r.t == sym.LPADZ(T(sym.imax(a.n, 0)), sym.list_term(b)))
+                return r
             if isinstance(a, tuple) and isinstance(b, tuple):
                 return a + b
             if isinstance(a, (bytes, SBytes, str, SText, list, tuple)) or isinstance(b, (bytes, SBytes, str, SText, list, tuple)):
@@ -793,6 +835,10 @@ class Exec(object):
                 raise EngineLimit("symbolic repetition of a multi-byte string")
             if isinstance(a, list) and isinstance(b, int):
                 return a * b
+            if isinstance(a, list) and a == [0] and isinstance(b, SInt):
+                return ZeroList(b)
+            if isinstance(b, list) and b == [0] and isinstance(a, SInt):
+                return ZeroList(a)
             if isinstance(a, int) and isinstance(b, list):
                 return b * a
             if isinstance(a, str) and isinstance(b, int):
@@ -1637,6 +1683,7 @@ class Exec(object):
         seq = SeqView(self, it, st.lineno)
         idx = spec.index or "_i%d" % fr.loop_ord[id(st)]
         fr.locals[idx] = 0
+        fr.locals["_seq%d" % fr.loop_ord[id(st)]] = it           # invariants may speak about the iterated sequence
 
         def guard():
             i = fr.locals[idx]
@@ -1697,15 +1744,22 @@ class Exec(object):
     def havoc_value(self, v, hint):
         if isinstance(v, list):
             if all(isinstance(x, (int, SInt)) for x in v):
-                self.n_fresh += 1
-                return SIntList(z3.Const("%s!%d" % (hint, self.n_fresh), sym.IntList))
+                return self.fresh_list(hint, 1)
+            if v and all(isinstance(x, tuple) and len(x) == len(v[0]) and all(isinstance(y, (int, SInt)) for y in x) for x in v):
+                return self.fresh_list(hint, len(v[0]))
             raise EngineLimit("havoc of a list of non-integers (%s)" % hint)
         if isinstance(v, SIntList):
-            self.n_fresh += 1
-            return SIntList(z3.Const("%s!%d" % (hint, self.n_fresh), sym.IntList))
+            return self.fresh_list(hint, v.width)
         if isinstance(v, (SObj,)) or v is None:
             raise EngineLimit("havoc of object variable %s" % hint)
         return self.fresh_like(v, hint)
+
+    def fresh_list(self, hint, width=1):
+        self.n_fresh += 1
+        ts = [z3.Const("%s!%d%s" % (hint, self.n_fresh, "" if k == 0 else "c%d" % k), sym.IntList) for k in range(width)]
+        for t in ts[1:]:
+            self.pc.append(sym.LLEN(t) == sym.LLEN(ts[0]))
+        return SIntList(*ts)
 
     # ------------------------------------------------------------------ builtin methods on values
     def builtin_method(self, obj, name, args, kwargs, line):
@@ -1726,6 +1780,20 @@ class RangeVal(object):
         self.lo, self.hi, self.step = lo, hi, step
 
 
+class ZeroList(object):
+    """[0] * n for a symbolic n (only ever used as padding in front of a list)"""
+
+    def __init__(self, n):
+        self.n = n
+
+
+class ZipView(object):
+    """zip(a, b) of two symbolic lists"""
+
+    def __init__(self, parts):
+        self.parts = parts
+
+
 class DictView(object):
     def __init__(self, obj):
         self.obj = obj
@@ -1738,7 +1806,7 @@ class SeqView(object):
         self.ex = ex
         self.it = it
         self.line = line
-        if not isinstance(it, (RangeVal, SIntList, SBytes, list, tuple)):
+        if not isinstance(it, (RangeVal, SIntList, SBytes, list, tuple, ZipView)):
             raise EngineLimit("symbolic iteration over %s" % type(it).__name__)
 
     def length(self):
@@ -1749,6 +1817,12 @@ class SeqView(object):
             return sym.imax(it.hi - it.lo, 0)
         if isinstance(it, SIntList):
             return SInt(sym.LLEN(it.t))
+        if isinstance(it, ZipView):
+            n = None
+            for part in it.parts:
+                k = SInt(sym.LLEN(part.t)) if isinstance(part, SIntList) else len(part)
+                n = k if n is None else sym.imin(n, k)
+            return n
         if isinstance(it, SBytes):
             return blen(it)
         return len(it)
@@ -1758,13 +1832,41 @@ class SeqView(object):
         if isinstance(it, RangeVal):
             return it.lo + i
         if isinstance(it, SIntList):
-            return SInt(sym.LAT(it.t, T(i)))
+            if it.width == 1:
+                return SInt(sym.LAT(it.t, T(i)))
+            return tuple(SInt(sym.LAT(t, T(i))) for t in it.ts)
+        if isinstance(it, ZipView):
+            return tuple(SeqView(self.ex, part, self.line).item(i) for part in it.parts)
         if isinstance(it, SBytes):
             return at(it, i)
         raise EngineLimit("symbolic index into concrete sequence in for loop")
 
 
 NOTIMPL = Sentinel("NotImplemented")
+
+_QCACHE = {}
+
+
+def _has_quantifier(f):
+    k = f.get_id()
+    hit = _QCACHE.get(k)
+    if hit is not None and hit[0].eq(f):
+        return hit[1]
+    seen = set()
+    stack = [f]
+    r = False
+    while stack:
+        t = stack.pop()
+        if t.get_id() in seen:
+            continue
+        seen.add(t.get_id())
+        if z3.is_quantifier(t):
+            r = True
+            break
+        if z3.is_app(t):
+            stack.extend(t.children())
+    _QCACHE[k] = (f, r)
+    return r
 
 
 def _load(t):
